@@ -112,13 +112,15 @@ def shard_fn(sh):
                              punct_with_feature=punct)
             if K.size(v) >= 2:
                 st.count('nontrivial')
-            for bad in unbracketed(v):
-                st.count('ambiguous_texts')
-                try:
-                    r = K.P(bad)
-                    st.violation('associativity_guessed', f'{bad!r} (two unbracketed slashes at one level) was read as {r}', value=bad, engine='c05_unbracketed')
-                except Exception:
-                    pass
+            for bad0 in unbracketed(v):
+                # the ambiguous level at the top, inside redundant brackets, and as an operand of a larger category
+                for bad in (bad0, f'({bad0})', f'<{bad0}>', f'(({bad0}))', f'({bad0})/N', f'N\\({bad0})', f'N/<{bad0}>'):
+                    st.count('ambiguous_texts')
+                    try:
+                        r = K.P(bad)
+                        st.violation('associativity_guessed', f'{bad!r} (two unbracketed slashes at one level) was read as {r}', value=bad, engine='c05_unbracketed')
+                    except Exception:
+                        pass
             st.observe(t)
     elif kind == 'deco':
         d = sh[4]
